@@ -1214,7 +1214,8 @@ class Scheduler:
         self.backend.record_tags(
             TagEntity.Execution,
             self._current_execution.id,
-            chain(self._exec_tags, tags),
+            # Not a one-shot iterator: a retried record_tags must see the tags again.
+            list(chain(self._exec_tags, tags)),
         )
 
         self.log(
